@@ -65,6 +65,15 @@ def run(res, tier, seed, widen=1):
         data = gen_noise(rng)
         chs = [data[i:i + 1] for i in range(len(data))] if (len(data) < 40 and rng.random() < 0.3) else lib.split_at(data, lib.random_cuts(rng, len(data)))
         streams.append(chs)
+    # more than 8191 pending octets while collecting (lost end line), THEN an end line and a clean readout: the reader
+    # must have gone back to hunting (no exception from the next '!' line, the clean readout still comes out)
+    for _ in range((10 if tier == "quick" else 150) * widen):
+        filler = b"".join(b"1-0:1.8.0(%08d*kWh)\r\n" % rng.randrange(10 ** 8) for _ in range(rng.choice([400, 420, 800])))
+        tail = rng.choice([b"!\r\n", b"!ABCD\r\n", b"!\xff\r\n", b"!zz\n"])
+        data = P.gen_ident(rng) + filler + tail + P.gen_readout(rng)
+        cuts = sorted(rng.sample(range(1, len(data)), rng.choice([0, 1, 3, 12])))
+        streams.append(lib.split_at(data, cuts))
+        res.count("overflow_then_end_line")
     # HDLC reader
     cases = [(H.CFGS[i % 4], chs) for i, chs in enumerate(streams)]
     for (cfg, chs), (mcalls, runeq) in zip(cases, H.model_read(cases)):
